@@ -195,3 +195,12 @@ add("C08",
     "both twins, compared with the model and cross-checked against each other.",
     "stated_not_proved: agreement of the object-level entry points in every cache state as a theorem (needs the C05 refinement).",
     "Lean 4 proof (lookupAll = name-indexed family of lookup answers) + differential correspondence + cross-entry-point oracle", "6/C08")
+add("C09",
+    "Theorems on the nested containers of the registry model that is compared with the real code (ZI.Registry.Level, Level.update = the create-and-descend walk "
+    "of register / subscribe, Level.remove = the walk of unregister / unsubscribe with pruning): find_update (after an update only the addressed path changes; a "
+    "missing leaf counts as empty), find_remove (the addressed leaf becomes f a or disappears if that is empty; every other path is unchanged — pruning an "
+    "emptied container never loses a sibling), remove_flag (a container reported emptied has no children), for all depths and paths; kget_set / kget_erase for "
+    "the association lists. registered / subscribed / allRegistrations / allSubscriptions, rebuild() and replay clones are judged against a flat map after every "
+    "step; the model is compared with both twins.",
+    "stated_not_proved: C09_refines lifted to the whole registry state (provided counts, extendors) and C09_rebuild — evaluated by the oracle.",
+    "Lean 4 proof (nested containers refine a flat map, for the model's own container type) + differential correspondence + flat-map oracle", "6/C09")
